@@ -377,6 +377,9 @@ func (b *builder) age(c *Case) error {
 	if b.osBack {
 		links := []string{"O/u"}
 		for j := range c.Links {
+			if c.Op == OpGCFreshLinks {
+				continue // the tree's own links stay younger than the threshold
+			}
 			links = append(links, c.linkRel(j))
 		}
 		for _, l := range links {
